@@ -67,7 +67,36 @@ pub mod options {
     macro_rules! empty_opts {
         ($($n:ident),*) => { $(#[derive(Debug, Clone, Default)] pub struct $n {})* };
     }
-    empty_opts!(FindOneOptions, FindOptions, InsertOneOptions, UpdateOptions, ReplaceOptions, DeleteOptions, CreateIndexOptions, ClientOptions);
+    empty_opts!(FindOneOptions, FindOptions, InsertOneOptions, DeleteOptions, CreateIndexOptions, ClientOptions);
+
+    macro_rules! upsert_opts {
+        ($n:ident, $b:ident) => {
+            #[derive(Debug, Clone, Default)]
+            pub struct $n {
+                pub upsert: Option<bool>,
+            }
+            impl $n {
+                pub fn builder() -> $b {
+                    $b::default()
+                }
+            }
+            #[derive(Debug, Clone, Default)]
+            pub struct $b {
+                upsert: Option<bool>,
+            }
+            impl $b {
+                pub fn upsert(mut self, u: impl Into<Option<bool>>) -> Self {
+                    self.upsert = u.into();
+                    self
+                }
+                pub fn build(self) -> $n {
+                    $n { upsert: self.upsert }
+                }
+            }
+        };
+    }
+    upsert_opts!(UpdateOptions, UpdateOptionsBuilder);
+    upsert_opts!(ReplaceOptions, ReplaceOptionsBuilder);
 
     #[derive(Debug, Clone, Default)]
     pub struct IndexOptions {
@@ -587,21 +616,26 @@ impl<T> Collection<T> {
         &self,
         query: Document,
         update: Document,
-        _options: impl Into<Option<options::UpdateOptions>>,
+        options: impl Into<Option<options::UpdateOptions>>,
     ) -> error::Result<results::UpdateResult> {
-        self.update_impl("update_one", query, update, true).await
+        let upsert = options.into().and_then(|o| o.upsert).unwrap_or(false);
+        self.update_impl("update_one", query, update, true, upsert).await
     }
 
     pub async fn update_many(
         &self,
         query: Document,
         update: Document,
-        _options: impl Into<Option<options::UpdateOptions>>,
+        options: impl Into<Option<options::UpdateOptions>>,
     ) -> error::Result<results::UpdateResult> {
-        self.update_impl("update_many", query, update, false).await
+        let upsert = options.into().and_then(|o| o.upsert).unwrap_or(false);
+        self.update_impl("update_many", query, update, false, upsert).await
     }
 
-    async fn update_impl(&self, op: &'static str, query: Document, update: Document, one: bool) -> error::Result<results::UpdateResult> {
+    async fn update_impl(&self, op: &'static str, query: Document, update: Document, one: bool, upsert: bool) -> error::Result<results::UpdateResult> {
+        if upsert {
+            panic!("mongodb shim: upsert on {op} is not supported");
+        }
         let (g, o, actor) = gate(self.client.epoch, op, &self.name, &query).await;
         if o == Outcome::FaultBefore {
             log_event(self.event(g, &actor, op, &query, "fault-before"));
@@ -673,8 +707,9 @@ impl<T: Serialize> Collection<T> {
         &self,
         query: Document,
         replacement: impl Borrow<T>,
-        _options: impl Into<Option<options::ReplaceOptions>>,
+        options: impl Into<Option<options::ReplaceOptions>>,
     ) -> error::Result<results::UpdateResult> {
+        let upsert = options.into().and_then(|o| o.upsert).unwrap_or(false);
         let new_doc = bson::to_document(replacement.borrow()).map_err(|e| error::Error { msg: e.to_string() })?;
         let (g, o, actor) = gate(self.client.epoch, "replace_one", &self.name, &query).await;
         if o == Outcome::FaultBefore {
@@ -684,6 +719,28 @@ impl<T: Serialize> Collection<T> {
         let mut st = self.client.store.lock().unwrap();
         let c = st.colls.entry(self.name.clone()).or_default();
         let pos = c.docs.iter().position(|d| matches(&d.doc, &query));
+        if pos.is_none() && upsert {
+            // insert the replacement as a new document
+            if let Some(msg) = violates_unique(c, &new_doc, None) {
+                drop(st);
+                log_event(self.event(g, &actor, "replace_one", &query, "duplicate-key"));
+                return Err(error::Error { msg });
+            }
+            let mut nd = new_doc;
+            st.next_doc += 1;
+            let id = st.next_doc;
+            nd.insert("_id", Bson::Int64(id as i64));
+            let c = st.colls.entry(self.name.clone()).or_default();
+            c.docs.push(StoredDoc { id, prov: actor.clone(), doc: nd.clone() });
+            drop(st);
+            let mut ev = self.event(g, &actor, "replace_one", &query, if o == Outcome::Ok { "ok" } else { "fault-after" });
+            ev.touched.push(Touched { id, prov: actor.clone(), before: None, after: Some(nd) });
+            log_event(ev);
+            if o == Outcome::FaultAfter {
+                return Err(fault());
+            }
+            return Ok(results::UpdateResult { matched_count: 0, modified_count: 0, upserted_id: Some(Bson::Int64(id as i64)) });
+        }
         let Some(pos) = pos else {
             drop(st);
             log_event(self.event(g, &actor, "replace_one", &query, if o == Outcome::Ok { "ok" } else { "fault-after" }));
